@@ -542,6 +542,12 @@ Definition stmt_C16_equiv : Prop :=
   gen_from_str it = Ok c -> gen_from_str (with_phf it) = Ok c' ->
   forall s, run_from_str c' s = run_from_str c s.
 
+(* at full strength (no NonOverlap hypothesis: with overlapping spellings declaration order decides in both parsers) *)
+Definition stmt_C16_equiv_all : Prop :=
+  forall it c c', has_phf it = false ->
+  gen_from_str it = Ok c -> gen_from_str (with_phf it) = Ok c' ->
+  forall s, run_from_str c' s = run_from_str c s.
+
 (* ======================= C20 ======================= *)
 Definition stmt_C20_rejects : Prop :=
   forall r dv it, rule_applies r dv it = true -> exists e, outcome dv it = Err e.
